@@ -4,6 +4,7 @@ package trafficcontroller
 
 import (
 	"fmt"
+	"net/http"
 	"net/http/httptest"
 	"runtime"
 	"strconv"
@@ -17,6 +18,7 @@ import (
 	_ "github.com/megaease/easegress/pkg/filters/fallback"
 	_ "github.com/megaease/easegress/pkg/filters/headertojson"
 	_ "github.com/megaease/easegress/pkg/filters/mock"
+	_ "github.com/megaease/easegress/pkg/filters/proxy"
 	_ "github.com/megaease/easegress/pkg/filters/ratelimiter"
 	_ "github.com/megaease/easegress/pkg/filters/requestadaptor"
 	_ "github.com/megaease/easegress/pkg/filters/responseadaptor"
@@ -42,7 +44,16 @@ func c11Pipeline(name string, k int, variant int) string {
 	if variant&2 != 0 {
 		b.WriteString("- filter: val\n- filter: reqad\n")
 	}
-	b.WriteString("- filter: mock\n  jumpIf: {mocked: ra}\n- filter: ra\nfilters:\n")
+	if variant&4 != 0 {
+		// a real Proxy (with retry and circuit-breaker policies) in place of the Mock: the
+		// RequestAdaptor 'reqgen' stamps the generation on the request, the backend echoes it
+		b.WriteString("- filter: reqgen\n- filter: proxy\n- filter: ra\n")
+		b.WriteString("resilience:\n- name: retry3\n  kind: Retry\n  maxAttempts: 3\n  waitDuration: 1ms\n")
+		b.WriteString("- name: cb\n  kind: CircuitBreaker\n  slidingWindowType: COUNT_BASED\n  slidingWindowSize: 100\n  failureRateThreshold: 100\n  minimumNumberOfCalls: 100\n")
+		b.WriteString("filters:\n")
+	} else {
+		b.WriteString("- filter: mock\n  jumpIf: {mocked: ra}\n- filter: ra\nfilters:\n")
+	}
 	if variant&1 != 0 {
 		b.WriteString("- name: cors\n  kind: CORSAdaptor\n  allowedOrigins: [\"*\"]\n")
 	}
@@ -74,6 +85,29 @@ func c11Pipeline(name string, k int, variant int) string {
       X-Seen: "yes"
 `)
 	}
+	if variant&4 != 0 {
+		fmt.Fprintf(&b, `- name: reqgen
+  kind: RequestAdaptor
+  header:
+    set:
+      X-Gen-Req: "%d"
+- name: proxy
+  kind: Proxy
+  pools:
+  - servers:
+    - url: %s
+    loadBalance:
+      policy: roundRobin
+    retryPolicy: retry3
+    circuitBreakerPolicy: cb
+- name: ra
+  kind: ResponseAdaptor
+  header:
+    set:
+      X-Gen: "%d"
+`, k, c11Backend().URL, k)
+		return b.String()
+	}
 	fmt.Fprintf(&b, `- name: mock
   kind: Mock
   rules:
@@ -88,6 +122,22 @@ func c11Pipeline(name string, k int, variant int) string {
       X-Gen: "%d"
 `, k, k)
 	return b.String()
+}
+
+var (
+	c11BackendOnce sync.Once
+	c11BackendSrv  *httptest.Server
+)
+
+// c11Backend is a loopback backend that echoes the generation stamped on the request.
+func c11Backend() *httptest.Server {
+	c11BackendOnce.Do(func() {
+		c11BackendSrv = httptest.NewServer(http.HandlerFunc(func(w http.ResponseWriter, r *http.Request) {
+			w.Header().Set("Content-Type", "text/plain")
+			fmt.Fprintf(w, "gen-%s", r.Header.Get("X-Gen-Req"))
+		}))
+	})
+	return c11BackendSrv
 }
 
 type c11Obs struct {
@@ -143,7 +193,7 @@ func c11GenOf(o c11Obs) (int, int, bool) {
 func TestVerif_C11_Pipelines(t *testing.T) {
 	r := kit.Start(t, "C11")
 	defer r.Finish()
-	r.Rule("rig 2/3: real TrafficController + real Pipelines (RateLimiter whose state is inherited, Mock, ResponseAdaptor, optionally CORSAdaptor/Validator/RequestAdaptor); 8 client goroutines call GetHandler(hot).Handle while one goroutine applies generations g0..gN of 'hot' (body and header both carry the generation) and another creates/updates/deletes three other pipelines; oracle: no panic, status 200, body generation == header generation, applied-before-start <= generation <= started-before-end, the untouched pipeline 'stable' always available with its own marker; sequential: handler obtained before an update is used after it (and after the old generation was closed), re-applying an identical spec returns the same entity and instance; distinct = (phase, variant, generation lag, overlap)")
+	r.Rule("rig 2/3: real TrafficController + real Pipelines (RateLimiter whose state is inherited, Mock, ResponseAdaptor, optionally CORSAdaptor/Validator/RequestAdaptor, and in half of the cases a real Proxy with Retry and CircuitBreaker policies to a loopback backend in place of the Mock); 8 client goroutines call GetHandler(hot).Handle while one goroutine applies generations g0..gN of 'hot' (body and header both carry the generation) and another creates/updates/deletes three other pipelines; oracle: no panic, status 200, body generation == header generation, applied-before-start <= generation <= started-before-end, the untouched pipeline 'stable' always available with its own marker; sequential: handler obtained before an update is used after it (and after the old generation was closed), re-applying an identical spec returns the same entity and instance; distinct = (phase, variant, generation lag, overlap)")
 	r.Assume("an update has 'been applied' when ApplyPipelineForSpec/UpdatePipelineForSpec returned")
 	super := supervisor.NewDefaultMock()
 	rounds := r.N(10, 300)
@@ -152,7 +202,7 @@ func TestVerif_C11_Pipelines(t *testing.T) {
 			continue
 		}
 		rng := r.CaseRand(i)
-		variant := rng.Intn(4)
+		variant := rng.Intn(8)
 		gens := 30 + rng.Intn(40)
 		useUpdate := rng.Intn(2) == 0
 		r.Case(i, map[string]interface{}{"variant": variant, "generations": gens, "useUpdate": useUpdate})
@@ -263,7 +313,7 @@ func TestVerif_C11_Pipelines(t *testing.T) {
 			n := 0
 			for atomic.LoadInt32(&stop) == 0 {
 				name := fmt.Sprintf("other-%d", n%3)
-				spec, err := super.NewSpec(c11Pipeline(name, n, n%4))
+				spec, err := super.NewSpec(c11Pipeline(name, n, n%8))
 				if err != nil {
 					r.Inconclusive("churn spec rejected: " + err.Error())
 					return
